@@ -139,9 +139,12 @@ extern "C" void harness_equality()  /* vf: bounds=single-node_perturbations_at_e
         p = replace_at(e, idx, at, [&](const expression_t& o) { return expression_t::create_identifier(o.get_symbol() == other ? other2 : other, o.get_position()); });
         break;
     }
-    vf_note(e.str().c_str()); vf_note(p.str().c_str());
+    // a perturbed tree may be one no parse produces (a double where the printer reads an integer operand): printing it may throw
+    std::string ps; bool printable = true;
+    try { ps = p.str(); } catch (std::exception&) { printable = false; }
+    vf_note(e.str().c_str()); vf_note(printable ? ps.c_str() : "<perturbed tree not printable>");
     vf_assert(!p.equal(e) && !e.equal(p), "perturbation-distinguished");
-    vf_assert(!(p.equal(e)) || p.str() == e.str(), "equal-implies-same-text");
+    vf_assert(!(p.equal(e)) || (printable && ps == e.str()), "equal-implies-same-text");
     vf_reach("end");
 }
 
